@@ -1,4 +1,3 @@
-use quote::{format_ident, quote};
 use syn::{Data, DeriveInput, Fields, Meta, Type};
 
 use super::{
